@@ -8,7 +8,7 @@ from vlib import core, gen
 PROP = "C03"
 META = {
     "technique": "Coq proof: integer arithmetic with explicit uint32/uint64 wraps over an executable model of createBufferManager/mappingBufferManager/create*/mapping* queue code, induction over the (size, percent) list; tie: generated constants, per-side field offsets, percent literals and queue half indices + differential execution of the real functions on generated configurations",
-    "level_text": "Queues: C03_queues / C03_queues_memfd hold in full (every uint32 capacity, both back-ends, cross-wiring over the generated half indices) since /repo 97d22d3. Buffers and peer view: C03_buffers_config / C03_peer_view_config hold for every configuration VerifyConfig accepts (capacity < 2^32, sizes <= capacity, percent sum = 100 in int) up to the last byte below 4 GiB, under one hypothesis the code does not enforce (the list headers fit: 36*#pairs+8 <= capacity); a size whose stride wraps is rejected since /repo db4e530; C03_buffers_partial / C03_peer_view_partial hold for ARBITRARY uint32 percentages, any pair list and any initial memory below 4 GiB - 36 B; the unrestricted statements are kept and refuted by computed witnesses. C03_initial_chain: the free chain visits exactly the slots. The model is tied to /repo by regenerated constants/offsets/percent literals/half indices (a creator/mapper mismatch breaks the proof at coqc time) and by running the real functions on hundreds of configurations (heap bytes, /dev/shm files, memfds, lazily backed 4 GiB mappings) whose outcome class and class/queue geometry must equal the model's; an independent oracle checks disjointness, bounds, header placement, peer equality, the initial free chain and queue cross-wiring on the Go structures of every case.",
+    "level_text": "Queues: C03_queues / C03_queues_memfd hold in full (every uint32 capacity, both back-ends, cross-wiring over the generated half indices) since /repo 97d22d3. Buffers and peer view: C03_buffers_config / C03_peer_view_config hold for every configuration VerifyConfig accepts (capacity < 2^32, sizes <= capacity, percent sum = 100 in int) up to the last byte below 4 GiB, under one hypothesis the code does not enforce (the list headers fit: 36*#pairs+8 <= capacity); a size whose stride wraps is rejected since /repo db4e530; C03_buffers_partial / C03_peer_view_partial hold for ARBITRARY uint32 percentages, any pair list and any initial memory below 4 GiB - 36 B; the unrestricted statements are kept and refuted by computed witnesses. C03_peer_view_independent_of_allocation_state: for every value of the size/head/tail words (any allocator history) the peer maps the same classes - extents come from cap/capPerBuffer only. C03_initial_chain: the free chain visits exactly the slots. The model is tied to /repo by regenerated constants/offsets/percent literals/half indices (a creator/mapper mismatch breaks the proof at coqc time) and by an AST pattern over mappingFreeBufferList/mappingBufferManager (extent = countBufferListMemSize(cap, capPerBuffer), never size), and by running the real functions on hundreds of configurations (heap bytes, /dev/shm files, memfds, lazily backed 4 GiB mappings; the creator allocates 0..cap-1 slots per class through the real pop before the peer maps, the peer then pops/pushes at the region end and recycles the creator's slots) whose outcome class and class/queue geometry must equal the model's; an independent oracle checks disjointness, bounds, header placement, peer equality, the initial free chain and queue cross-wiring on the Go structures of every case.",
     "level_note": "Trusted: coqc kernel; cell-granular memory (aligned 4-byte header words); offset argument 0 (all callers); amd64 branch of mappingQueueFromBytes; mmap/ftruncate/memfd semantics of the kernel; configurations are sampled; queue capacities beyond 200000 on the real code: three capacities above 2^32/12 on lazily backed anonymous mappings (put/pop at the last element), the rest only against memory that is too short. Not covered by a theorem: accepted configurations with a capacity within 36 bytes of 4 GiB AND more than 119 million pairs.",
 }
 
@@ -28,10 +28,11 @@ KIND = {"Ok": 0, "Err": 1, "Panic": 2, "": 3, None: 3}
 
 def bcase_to_coq(c):
     pairs = core.coq_list(["(%s, %s)" % (core.z(p[0]), core.z(p[1])) for p in c.get("pairs") or []])
-    return ("{| b_pairs := %s; b_memLen := %s; b_fill := %s; b_create := %d; b_cclasses := %s; b_listnum := %s; b_usedlen := %s; b_map := %d; b_mclasses := %s |}"
+    return ("{| b_pairs := %s; b_memLen := %s; b_fill := %s; b_create := %d; b_cclasses := %s; b_listnum := %s; b_usedlen := %s; b_map := %d; b_mclasses := %s; b_alloc := %s |}"
             % (pairs, core.z(c["memlen"]), core.z(c["fill"]), KIND[c.get("create")],
                core.coq_list([cls(x) for x in c.get("cclasses") or []]), core.z(c["listnum"]), core.z(c["usedlen"]),
-               KIND[c.get("map")], core.coq_list([cls(x) for x in c.get("mclasses") or []])))
+               KIND[c.get("map")], core.coq_list([cls(x) for x in c.get("mclasses") or []]),
+               core.coq_list(["(%s, %s, %s)" % tuple(core.z(v) for v in a) for a in c.get("alloc") or []])))
 
 
 def qcase_to_coq(c):
@@ -114,7 +115,7 @@ def signature(msg):
 
 def brief(c):
     keys = ("id", "kind", "gen", "pairs", "memlen", "fill", "guard", "create", "cerr", "cclasses", "map", "merr", "mclasses",
-            "listnum", "usedlen", "qcap", "qdatalen", "qcreate", "qmap", "qa", "qb", "qmemsize")
+            "listnum", "usedlen", "held", "alloc", "qcap", "qdatalen", "qcreate", "qmap", "qa", "qb", "qmemsize")
     return {k: c[k] for k in keys if k in c and c[k] not in (None, "", [])}
 
 
